@@ -100,6 +100,28 @@ int main_replay(){
   return 0;
 }
 '''
+REPLAY_F4N = r'''
+/* F4 on the real library: an output whose largest-magnitude value is negative; with a tolerance above every normalized coefficient nothing is proposed. */
+int main_replay(){
+  using namespace TasGrid;
+  int bad = 0;
+  for (int fam = 0; fam < 2; fam++) {
+    TasmanianSparseGrid g = fam == 0 ? makeLocalPolynomialGrid(2, 1, 3, 1, rule_localp) : makeWaveletGrid(2, 1, 2, 1);
+    std::vector<double> p = g.getNeededPoints(), v(g.getNumNeeded());
+    for (int i = 0; i < g.getNumNeeded(); i++) v[i] = -100.0 + 0.5 * std::sin(3.0 * p[2*i] + p[2*i+1]);      /* all values negative, magnitude about 100 */
+    g.loadNeededValues(v);
+    const double *c = g.getHierarchicalCoefficients(); double cmax = 0.0; for (int i = 1; i < g.getNumLoaded(); i++) cmax = std::max(cmax, std::abs(c[i]));
+    g.setSurplusRefinement(2.0 * cmax / 99.0 + 1.E-3, refine_classic, 0);      /* every coefficient / 100 is far below this tolerance except the first (the constant) */
+    int n1 = g.getNumNeeded();
+    TasmanianSparseGrid h = fam == 0 ? makeLocalPolynomialGrid(2, 1, 3, 1, rule_localp) : makeWaveletGrid(2, 1, 2, 1);
+    for (auto &q : v) q = -q; h.loadNeededValues(v);      /* the mirrored (positive) data must give the same proposal */
+    h.setSurplusRefinement(2.0 * cmax / 99.0 + 1.E-3, refine_classic, 0);
+    if (n1 != h.getNumNeeded()) { std::printf("%s grid: %d points proposed for negative data, %d for the mirrored positive data\n", fam ? "wavelet" : "local polynomial", n1, h.getNumNeeded()); bad++; }
+  }
+  __CPROVER_assert(bad == 0, "F4 the normalization uses magnitudes: mirrored data give the same refinement");
+  return 0;
+}
+'''
 def mk_replay(prop, body):
     def rp(job, ob, vals, wd):
         hdr = "Replay against the real library.\nproperty %s job %s\nobligation %s: %s\nat %s" % (prop, job.name, ob["name"], ob["description"], ob["location"])
@@ -177,6 +199,35 @@ def jobs(tier, seed, prop):
                        bounded="points <= %d, outputs <= 2, dimensions <= 2 (full unwinding with unwinding assertions)" % npnt,
                        assumed=["R13: the criterion |s|/norm > tolerance is (the negation of) an uninterpreted deterministic predicate of its operands", "getNormalization returns arbitrary values (stub)"],
                        label="GridWavelet::buildUpdateMap classic criterion: which coefficient and norm meet (F4)"))
+    if prop == "C07":
+        Rn = X.Rules()
+        nt, ninfo = limits.emit_getNormalization(Rn)
+        for fam in ("LocalPolynomial", "Wavelet"):
+            hn = '''
+#define TSG_NPN 3
+#define TSG_NON 2
+typedef struct { int num_points, num_outputs; double values[TSG_NPN * TSG_NON]; } GN;
+''' + nt + '''
+void h_norm(void){
+  GN g; g.num_points = nondet_int(); g.num_outputs = nondet_int();
+  __CPROVER_assume(g.num_points >= 0 && g.num_points <= TSG_NPN && g.num_outputs >= 1 && g.num_outputs <= TSG_NON);
+  for (int k = 0; k < TSG_NPN * TSG_NON; k++) { g.values[k] = nondet_double(); __CPROVER_assume(g.values[k] == g.values[k]); }
+  double out[TSG_NON];
+  NORM(&g, out);
+  int a_j = nondet_int(), a_i = nondet_int(); __CPROVER_assume(a_j >= 0 && a_j < g.num_outputs);
+  /* norm[j] is an upper bound of |v[i][j]| for every point (witness i) and is attained (or 0 without points) */
+  if (g.num_points > 0) { __CPROVER_assume(a_i >= 0 && a_i < g.num_points); double v = g.values[a_i * g.num_outputs + a_j]; if (v < 0.0) v = -v;
+    __CPROVER_assert(out[a_j] >= v, "F4 the normalization of output j is at least the magnitude |value| of every loaded value of that output (negative values included)"); }
+  bool attained = (g.num_points == 0 && out[a_j] == 0.0);
+  for (int i = 0; i < TSG_NPN; i++) if (i < g.num_points) { double v = g.values[i * g.num_outputs + a_j]; if (v < 0.0) v = -v; if (v == out[a_j]) attained = true; }
+  __CPROVER_assert(attained || out[a_j] == 0.0, "F4 the normalization is the magnitude of some loaded value of that output (or 0)");
+  __CPROVER_assert(0, "VACUITY-CANARY");
+}
+'''
+            out.append(Job("limits.getNormalization." + fam, '#include "tsg_shim.h"\nint tsg_exc;\n#define NORM getNormalization_%s\n' % fam + hn, "h_norm", unwind=8, timeout=300, backends=[[], ["--sat-solver", "cadical"]],
+                           functions=["%s:%d %s" % (f["file"], f["line"], f["name"]) for f in ninfo["functions"] if fam in f["name"]], info=ninfo, replay=mk_replay(prop, "#include <cmath>\n" + REPLAY_F4N),
+                           bounded="points <= 3, outputs <= 2 (full unwinding); any non-NaN doubles",
+                           label="Grid%s::getNormalization: the per-output normalization of the classic criterion is max |value|" % fam))
     if prop == "C08":
         t2 = [t for k, a, t in cf.sections if k == "text2"][0]
         for fam in ("Global", "Sequence"):
